@@ -18,11 +18,12 @@
  *          close=<code>
  *   The part before '#' is what lean/Driver/C19.lean prints for the same bytes (request `OPEN <hex>`).
  *
- * A watchdog alarm turns a runaway open into the answer `TIMEOUT` and exit code 98; a crash or a
- * sanitizer abort leaves the answer line missing (the driver script records the exit status and the
- * stderr tail, then restarts after the offending request).  The address-space limit cannot be used
- * with the ASan build (shadow memory); there ASAN_OPTIONS max_allocation_size_mb / hard_rss_limit_mb
- * play that role.
+ * A watchdog alarm (in the child) turns a runaway open into the answer `TIMEOUT`.  With fork = 0 (used
+ * for the 2-rank runs) a crash or a sanitizer abort leaves the answer line missing: the driver script
+ * records the exit status and the stderr tail, then restarts after the offending request.  The
+ * address-space limit cannot be used with the ASan build (shadow memory); there ASAN_OPTIONS
+ * max_allocation_size_mb / hard_rss_limit_mb play that role.  `grow` relies on the library being built with
+ * -DPNC_MALLOC_TRACE (ncmpi_inq_malloc_max_size; a refused allocation is counted with its requested size).
  */
 #include <stdio.h>
 #include <stdlib.h>
